@@ -4,20 +4,24 @@ EXTENDS Integers, Sequences, TLC
 
 RECURSIVE Gcd(_, _)
 Gcd(a, b) == IF b = 0 THEN (IF a >= 0 THEN a ELSE -a) ELSE Gcd(b, a % (IF b > 0 THEN b ELSE -b))
-Lcm(a, b) == (a * b) \div Gcd(a, b)
+Lcm(a, b) == (a \div Gcd(a, b)) * b
 
 RNorm(n, d) == LET s == IF d < 0 THEN -1 ELSE 1
                    g == Gcd(n, d)
                IN IF n = 0 THEN <<0, 1>> ELSE <<(s * n) \div g, (s * d) \div g>>
 R(n)       == <<n, 1>>
-RAdd(a, b) == RNorm(a[1] * b[2] + b[1] * a[2], a[2] * b[2])
-RSub(a, b) == RNorm(a[1] * b[2] - b[1] * a[2], a[2] * b[2])
-RMul(a, b) == RNorm(a[1] * b[1], a[2] * b[2])
-RDiv(a, b) == RNorm(a[1] * b[2], a[2] * b[1])
+\* intermediate products are kept small (TLC integers are 32 bit and overflow is an error): sums go through the
+\* least common denominator, products cancel crosswise first, comparisons scale to the common denominator
+RAdd(a, b) == LET l == Lcm(a[2], b[2]) IN RNorm(a[1] * (l \div a[2]) + b[1] * (l \div b[2]), l)
 RNeg(a)    == <<-a[1], a[2]>>
-RLt(a, b)  == a[1] * b[2] < b[1] * a[2]
-RLe(a, b)  == a[1] * b[2] <= b[1] * a[2]
-REq(a, b)  == a[1] * b[2] = b[1] * a[2]
+RSub(a, b) == RAdd(a, RNeg(b))
+RMul(a, b) == LET g1 == Gcd(a[1], b[2])  g2 == Gcd(b[1], a[2]) IN
+              IF a[1] = 0 \/ b[1] = 0 THEN <<0, 1>>
+              ELSE RNorm((a[1] \div g1) * (b[1] \div g2), (a[2] \div g2) * (b[2] \div g1))
+RDiv(a, b) == RMul(a, IF b[1] < 0 THEN <<-b[2], -b[1]>> ELSE <<b[2], b[1]>>)
+RLt(a, b)  == LET l == Lcm(a[2], b[2]) IN a[1] * (l \div a[2]) < b[1] * (l \div b[2])
+RLe(a, b)  == LET l == Lcm(a[2], b[2]) IN a[1] * (l \div a[2]) <= b[1] * (l \div b[2])
+REq(a, b)  == LET l == Lcm(a[2], b[2]) IN a[1] * (l \div a[2]) = b[1] * (l \div b[2])
 RAbs(a)    == <<IF a[1] < 0 THEN -a[1] ELSE a[1], a[2]>>
 RIsInt(a)  == a[2] = 1
 \* floor, ceiling, truncation toward zero (numpy.fix)
